@@ -150,6 +150,35 @@ def op(opname, a, b):
     return Lin.term(('op', opname, a, b))
 
 
+def trunc(v, bits):
+    """value after a narrowing conversion to an unsigned type of `bits` bits"""
+    if v.is_const():
+        return Lin(v.c & ((1 << bits) - 1))
+    return Lin.term(('op', 'trunc', v, Lin(bits)))
+
+
+def drop_trunc(l):
+    """the same value under the assumption that every narrowed quantity is representable in its target type"""
+    out = Lin(l.c)
+    for t, k in l.t.items():
+        if t[0] == 'op' and t[1] == 'trunc':
+            out = out + drop_trunc(t[2]).scale(k)
+        elif t[0] == 'op':
+            out = out + Lin.term(('op', t[1]) + tuple(drop_trunc(x) if isinstance(x, Lin) else x for x in t[2:]), k)
+        else:
+            out = out + Lin.term(t, k)
+    return out
+
+
+def minmax(name, a, b):
+    if a.is_const() and b.is_const():
+        return Lin(max(a.c, b.c) if name == 'max' else min(a.c, b.c))
+    if a == b:
+        return a
+    x, y = sorted([a, b], key=lambda l: repr(l.key()))
+    return Lin.term(('op', name, x, y))
+
+
 # ----------------------------------------------------------------------------- guards
 #
 # ('cmp', nonconst_key, op, c)  :  lin(nonconst) OP c,  OP in < <= == != > >=
